@@ -29,9 +29,9 @@ PROFILES = {
                           depth=(2, 2), state_internal=0.0, sm_internal=0.0, regions=(2, 3)),
     'pseudo_nc': dict(pseudo=1.0, history=0.5, pseudo_kinds=('explicit', 'fork', 'entry_pt'), row_budget=9, states_per_region=(2, 3),
                       depth=(2, 2), state_internal=0.0, sm_internal=0.0, regions=(1, 3), unique_rows=True, guard_none=0.4),
-    'pseudo': dict(pseudo=1.0, history=0.4, row_budget=10, states_per_region=(2, 2), depth=(2, 3), state_internal=0.0, sm_internal=0.0, regions=(1, 3)),
+    'pseudo': dict(pseudo=1.0, history=0.4, twin_exit=0.5, row_budget=10, states_per_region=(2, 2), depth=(2, 3), state_internal=0.0, sm_internal=0.0, regions=(1, 3)),
     'intro': dict(depth=(1, 3), regions=(1, 3), completion=0.3, history=0.5, pseudo=0.6, row_budget=10, states_per_region=(2, 3),
-                  state_internal=0.2, sm_internal=0.0, scripts=True, visitable=True),
+                  state_internal=0.2, sm_internal=0.0, scripts=True, visitable=True, root_history=0.4),
     'common': dict(depth=(1, 3), regions=(1, 3), completion=0.3, history=0.4, pseudo=0.4, row_budget=11, states_per_region=(2, 3),
                    state_internal=0.3, sm_internal=0.0, flags=0.5, blocking=0.25, deferral=0.4, scripts=True),
     'frontlang': dict(depth=(1, 1), regions=(1, 3), states_per_region=(2, 3), guard_composite=0.7, guard_none=0.15, action_max=3,
@@ -198,7 +198,7 @@ class Gen:
                              for _ in range(r.choice([1, 1, 2]))]
         if p['completion'] > 0:
             self.add_completion(m)
-        if level > 1 and p['history'] > 0 and r.random() < p['history']:
+        if (level > 1 and p['history'] > 0 and r.random() < p['history']) or (level == 1 and p.get('root_history', 0) > 0 and r.random() < p['root_history']):
             k = r.choice(['always', 'shallow', 'shallow'])
             if k == 'always':
                 m['history'] = 'always'
@@ -420,6 +420,18 @@ class Gen:
                         cands = [x for x in sub['regions'][ri_] if sub['states'][x]['kind'] in ('simple', 'explicit')]
                         sub['table'].append(dict(src=r.choice(cands), ev=inner_ev, tgt=px, guard=self.guard(), actions=self.actions()))
                         m['table'].append(dict(src=dict(exit_pt=[sname, px]), ev=fwd, tgt=r.choice(others), guard=None, actions=self.actions()))
+                        # a second exit point forwarding the SAME event type, connected to its own outer row: the outer rows may
+                        # only be told apart by which exit point is active
+                        if (self.p.get('twin_exit', 0) > 0 and r.random() < self.p['twin_exit'] and sum(len(x) for x in sub['regions']) < 9
+                                and len(m['table']) < MAX_ROWS - 1 and len(sub['table']) < MAX_ROWS - 2):
+                            rj_ = r.randrange(len(sub['regions']))
+                            self.nstate += 1
+                            px2 = 'PX%d' % self.nstate
+                            sub['regions'][rj_].append(px2)
+                            sub['states'][px2] = dict(kind='exit_pt', event=fwd)
+                            cands2 = [x for x in sub['regions'][rj_] if sub['states'][x]['kind'] in ('simple', 'explicit')]
+                            sub['table'].append(dict(src=r.choice(cands2), ev=r.choice(events), tgt=px2, guard=self.guard(), actions=self.actions()))
+                            m['table'].append(dict(src=dict(exit_pt=[sname, px2]), ev=fwd, tgt=r.choice(others), guard=None, actions=self.actions()))
 
     def add_deferral(self, sp):
         """Deferral inside the documented domain. back/back11: declared in the machine that receives the event (root); a
